@@ -578,6 +578,15 @@ def run(prop, tier, seed):
         ov_scs = []
         if prop in ("C01", "C02"):
             conc0 = concs[0][1]
+            # Overlap.tla: with the directory lock at most one process runs and a new one knows everything signed before; without it
+            # (design mutant) two processes each keep their own highest slot - the counterexample is the scenario below
+            ocfg = dict(Procs={"p1", "p2", "p3"}, MaxSlot=3, Roots={"A", "B"}, DirLock=True)
+            ro = tlc("Overlap", make_cfg(ocfg, invariants=["NoDoubleProposal", "OneAtATime", "ViewCovers"], deadlock=False), wd, name="Overlap", timeout=600)
+            require_ok(ro, "Overlap")
+            rom = tlc("Overlap", make_cfg(dict(ocfg, DirLock=False), invariants=["NoDoubleProposal"], deadlock=False), wd, name="Overlap_mut", timeout=600)
+            require_killed(rom, "Overlap mutant DirLock=FALSE", ["NoDoubleProposal"])
+            info["model_runs"].append(dict(module="Overlap", distinct=ro.distinct, generated=ro.generated, invariants=["NoDoubleProposal", "OneAtATime", "ViewCovers"], wall_s=round(ro.wall, 1)))
+            info["mutants"].append(dict(mutant="Overlap DirLock=FALSE", killed_by=[rom.violated]))
             def pair_(i_):
                 if prop == "C02":
                     return ("prop", [dict(k=0, slot=1, root="A")], [dict(k=0, slot=2 + i_ % 2, root="A")], [dict(k=0, slot=2 + i_ % 2, root="B")])
